@@ -11,8 +11,8 @@ import FV.Model.Scalar
   * the grid is `List (List Bool)`; the constructor's assertions (at least one row, equal row lengths)
     are `Grid.wf`; `cell` reads `m[i][j]` (default `false` outside, never reached for a well-formed grid
     because every loop range of the code is bounded by `nrows` / `ncols`).
-  * the mutable `nrows × nrows` table `rect` of `_get_trunks_matrix` is a (wrapped) function
-    `Nat → Nat → Option Interval` with point update `upd`; the `for` loops are `forUp` / `forDown` over the same index ranges in the same
+  * the mutable `nrows × nrows` table `rect` of `_get_trunks_matrix` is an update log (`Table`) with
+    `get`/`upd` (`get (upd t i j v) i' j' = if i' = i ∧ j' = j then v else get t i' j'`); the `for` loops are `forUp` / `forDown` over the same index ranges in the same
     order, so the in-place reads see exactly the entries the Python reads.
   * Python `set`s of rectangles are duplicate-free lists (order is not part of the model: the harness
     canonicalises; `strop_decomposition` takes the first element of a set iteration, so its model returns the
@@ -112,18 +112,24 @@ def rowInterval (R : List Bool) : Option Interval :=
 
 /-! ### `_get_trunks_matrix` -/
 
-/-- the table `rect` (wrapped in a structure so that compiled code evaluates every update eagerly, as Python does). -/
+/-- the table `rect`: an update log read newest-first (an entry never written reads `EMPTY_INTERVAL`, its initial
+value).  A concrete strict data structure, so compiled code evaluates every update eagerly, as Python does. -/
 structure Table where
-  get : Nat → Nat → Option Interval
+  entries : List (Nat × Nat × Option Interval)
+
+/-- `rect[i][j]`. -/
+def Table.get (t : Table) (i j : Nat) : Option Interval :=
+  match t.entries.find? (fun e => e.1 == i && e.2.1 == j) with
+  | some e => e.2.2
+  | none => none
 
 /-- `rect[i][j] = v`. -/
-def upd (t : Table) (i j : Nat) (v : Option Interval) : Table :=
-  ⟨fun i' j' => if i' = i ∧ j' = j then v else t.get i' j'⟩
+def upd (t : Table) (i j : Nat) (v : Option Interval) : Table := ⟨(i, j, v) :: t.entries⟩
 
 /-- diagonal + upper triangle. -/
 def fillTable (M : Grid) : Table :=
   let n := M.length
-  let t0 : Table := ⟨fun _ _ => none⟩
+  let t0 : Table := ⟨[]⟩
   -- for i in range(nrows): rect[i][i] = _row_interval(M[i])
   let t1 := forUp 0 n (fun i t => upd t i i (rowInterval (M.getD i []))) t0
   -- for column in range(1, nrows): for row in range(column-1, -1, -1): …
@@ -203,17 +209,18 @@ def total (m : Grid) (T : SRect) : Nat :=
   T.area + sumRange T.cols.low T.cols.high (fun c => hNorth m T c + hSouth m T c)
          + sumRange T.rows.low T.rows.high (fun r => hWest m T r + hEast m T r)
 
-/-- the run-length scan of a histogram: state `(init, v)`, current index `c`; emits `(v, init, last)` for
-every maximal run of a non-zero value.  `hs` are the entries at `c, c+1, …`. -/
-def runsAux : List Nat → (c init v : Nat) → List (Nat × Nat × Nat)
-  | [], c, init, v => if v ≠ 0 then [(v, init, c - 1)] else []
-  | x :: xs, c, init, v =>
-      if x ≠ v then (if v ≠ 0 then [(v, init, c - 1)] else []) ++ runsAux xs (c + 1) c x
-      else runsAux xs (c + 1) init v
+/-- the run-length scan of a histogram `h`: state `(init, v)`, current index `c`, `cnt` entries still to read;
+emits `(v, init, last)` for every maximal run of a non-zero value (`last = c - 1` when the run is closed at `c`;
+after the loop `c - 1 = hi`). -/
+def runsAux (h : Nat → Nat) : (cnt c init v : Nat) → List (Nat × Nat × Nat)
+  | 0, c, init, v => if v ≠ 0 then [(v, init, c - 1)] else []
+  | cnt+1, c, init, v =>
+      if h c ≠ v then (if v ≠ 0 then [(v, init, c - 1)] else []) ++ runsAux h cnt (c + 1) c (h c)
+      else runsAux h cnt (c + 1) init v
 
-/-- runs of `h lo, …, h hi` (`lo ≤ hi`). -/
+/-- runs of `h lo, …, h hi` (`lo ≤ hi`): `init, v = lo, h[lo]; for c in range(lo+1, hi+1): …`. -/
 def runs (h : Nat → Nat) (lo hi : Nat) : List (Nat × Nat × Nat) :=
-  runsAux ((List.range' (lo + 1) (hi - lo)).map h) (lo + 1) lo (h lo)
+  runsAux h (hi - lo) (lo + 1) lo (h lo)
 
 structure Instance where
   trunk : SRect
